@@ -78,9 +78,15 @@ type explorer struct {
 	stop  bool
 }
 
+// Beat, when set, is told about every execution before it starts (stall watchdog of the framework).
+var Beat func(scenario string, prefix []int)
+
 // RunOnce executes the scenario with the given choice prefix.
 func RunOnce(sc *Scenario, prefix []int, bound int, cache *vsched.Cache, trace bool) (*vsched.Sched, any) {
 	var obs any
+	if Beat != nil {
+		Beat(sc.Name, prefix)
+	}
 	s := vsched.Run(vsched.Config{Prefix: prefix, Bound: bound, Cache: cache, Trace: trace, EnvBudgets: sc.EnvBudgets, MaxSteps: sc.MaxSteps}, func() {
 		obs = sc.Body()
 	})
